@@ -63,7 +63,7 @@ def classes(tier):
 
 
 def n_runs(tier):
-    return 3_000 if tier == "quick" else 40_000
+    return 3_000 if tier == "quick" else 120_000
 
 
 # ---------------------------------------------------------------------------
